@@ -287,6 +287,44 @@ def add_nan_library(rnd, cfg, base_idx=0, p=0.25):
     return len(cfg["libraries"]) - 1
 
 
+def add_alt_units_library(rnd, cfg, base_idx=0, p=0.25):
+    """With probability p append a SECOND library for the same prior: same number of rows, same columns and dtypes (so a
+    file holding it has the same size), other values, columns stored in other (equivalent) units.  File-path ops then
+    share ONE file name ("alias") whose content the user regenerates between calls: every call must reflect what the
+    file holds now (no state keyed by file name / size may survive the rewrite).  Returns the new index or None."""
+    if rnd.random() >= p:
+        return None
+    import copy
+
+    from sim.world import LIB_UNIT_CHOICES
+
+    lib = copy.deepcopy(cfg["libraries"][base_idx])
+    if lib.get("dtype") != "f8":
+        return None
+    units = dict(lib["units"])
+    for _ in range(8):
+        units = {k: rnd.choice(v) for k, v in LIB_UNIT_CHOICES.items()}
+        units["s"] = rnd.choice(["km/s", "m/s"])
+        if units["P"] != lib["units"]["P"] or units["omega"] != lib["units"]["omega"]:
+            break
+    lib["units"] = units
+    lib["gen_seed"] = rnd.getrandbits(48)
+    lib.pop("overrides", None)
+    cfg["libraries"].append(lib)
+    return len(cfg["libraries"]) - 1
+
+
+def use_alt_library(rnd, op, alt, p_alias=0.8):
+    """Route an op to the alternate library half of the time; file-path ops (of either library) go through the shared name."""
+    if alt is None:
+        return
+    if rnd.random() < 0.5:
+        op["lib"] = alt
+    if op.get("source") == "file" and not op.get("in_memory") and rnd.random() < p_alias:
+        op["alias"] = "shared"
+        op["alias_mode"] = rnd.choice(["overwrite", "overwrite", "append-overwrite"])
+
+
 def add_neg_inf_profile(rnd, cfg, lib_idx=0, p=0.15):
     """With probability p force -inf likelihood on 1..3 rows of a library (kernel-output stub)."""
     if rnd.random() >= p:
